@@ -1,7 +1,8 @@
-import EupsModel.Lemmas.DepsTopo
+import EupsModel.Lemmas.DepsTotal
 /-! C13 — dependency listings are complete and ordered; `uses` is their inverse.
 Property theorems only.  Models: `Model/Topo.lean`, `Model/Deps.lean`; lemmas: `Lemmas/Topo.lean`,
-`Lemmas/TopoSpec.lean`, `Lemmas/Deps.lean`, `Lemmas/DepsFuel.lean`, `Lemmas/DepsTopo.lean`.
+`Lemmas/TopoSpec.lean`, `Lemmas/TopoTotal.lean`, `Lemmas/Deps.lean`, `Lemmas/DepsFuel.lean`, `Lemmas/DepsTopo.lean`,
+`Lemmas/Uses.lean`, `Lemmas/DepsTotal.lean`.
 
 Vocabulary (defined in `Lemmas/Deps.lean`, `Lemmas/DepsTopo.lean`):
 * `Edge db [] u v`   — the table of `u` has a setup line that denotes `v` (resolved, or the placeholder of an
@@ -155,6 +156,72 @@ theorem C13_cycle_reported_partial (db : Db) (hns : NoUnsetup db) (fuel : Nat) (
   exact hcyc rfl a ((keys_graph_iff C a).mpr ha) b ((keys_graph_iff C b).mpr hb)
     (depPath_to_path C hab) (depPath_to_path C hba)
 
+/-- **Cycle reported** (partial: hypothesis `SingleVersion`, D31): a closure in which two different products
+are mutually reachable makes `checkCycles` raise the cycle error — with the driver's fuel the outcome is
+exactly `cycle` — while without `checkCycles` the listing is still returned. -/
+theorem C13_cycle_reported (db : Db) (hns : NoUnsetup db) (top : Prod) (hsv : SingleVersion db top)
+    (a b : Prod) (ha : a = top ∨ Listed db [] top a) (hb : b = top ∨ Listed db [] top b) (hne : a ≠ b)
+    (hab : DepPath db top a b) (hba : DepPath db top b a) :
+    getDependentProducts db db.fuel top true true = .cycle ∧
+      ∃ out, getDependentProducts db db.fuel top true false = .ok out := by
+  constructor
+  · rcases getDependentProducts_total db hns top true true with ⟨out, h⟩ | ⟨_, h⟩
+    · exact absurd (C13_cycle_reported_partial db hns _ top hsv out h a b ha hb hab hba) hne
+    · exact h
+  · rcases getDependentProducts_total db hns top true false with h | ⟨h, _⟩
+    · exact h
+    · exact absurd h (by simp)
+
+/-! ## totality -/
+
+/-- **The listing never raises** (repaired tree; D18 was the `TypeError`): on every database without unsetup
+lines, for every root and every mode, the outcome is a listing — or, only when `checkCycles` is set, the cycle
+report.  No other error, no non-termination, also with two versions of a product and unresolved names. -/
+theorem C13_topological_total (db : Db) (hns : NoUnsetup db) (top : Prod) (topological cc : Bool) :
+    (∃ out, getDependentProducts db db.fuel top topological cc = .ok out) ∨
+      (cc = true ∧ getDependentProducts db db.fuel top topological cc = .cycle) :=
+  getDependentProducts_total db hns top topological cc
+
+/-- **`uses` never raises** (repaired tree; D2 was the `TypeError`): the index is built for every database
+without unsetup lines, and `users` is a total function of it — "the query answers without error even when a
+product depends on two versions of another". -/
+theorem C13_uses_total (db : Db) (hns : NoUnsetup db) : ∃ sb, usesInfo db db.fuel = .ok sb :=
+  usesInfo_total db hns
+
+/-! ## `uses` is the inverse of the listings -/
+
+/-- **Inverse.**  `Y w` is reported as a user of `X` (needing version `need`; the query names version `q` or
+none) exactly when `Y w` is declared and its dependency listing holds `X need`. -/
+theorem C13_uses_inverse (db : Db) (fuel : Nat) (sb : SetupBy) (h : usesInfo db fuel = .ok sb)
+    (X : Str) (q : Option Str) (Y w : Str) (need : Option Str) :
+    (∃ u ∈ users sb X q, u.name = Y ∧ u.ver = w ∧ u.need = need) ↔
+      ((q = none ∨ need = q) ∧ ∃ d ∈ db.decls, d.name = Y ∧ d.ver = w ∧ ∃ l,
+        getDependentProducts db fuel ⟨Y, some w, true⟩ true false = .ok l ∧
+        ∃ e ∈ l, e.prod.name = X ∧ e.prod.ver = need) :=
+  uses_inverse db fuel sb h X q Y w need
+
+/-- The same in terms of reachability: the users of `X` are the declared products from which a product named
+`X` is reachable through resolved tables. -/
+theorem C13_uses_is_reach (db : Db) (hns : NoUnsetup db) (sb : SetupBy) (h : usesInfo db db.fuel = .ok sb)
+    (X : Str) (q : Option Str) (Y w : Str) (need : Option Str) :
+    (∃ u ∈ users sb X q, u.name = Y ∧ u.ver = w ∧ u.need = need) ↔
+      ((q = none ∨ need = q) ∧ (∃ d ∈ db.decls, d.name = Y ∧ d.ver = w) ∧
+        ∃ v, Listed db [] ⟨Y, some w, true⟩ v ∧ v ≠ ⟨Y, some w, true⟩ ∧ v.name = X ∧ v.ver = need) := by
+  rw [C13_uses_inverse db db.fuel sb h]
+  constructor
+  · rintro ⟨hq, d, hd, h1, h2, l, hl, e, he, h3, h4⟩
+    refine ⟨hq, ⟨d, hd, h1, h2⟩, e.prod, ?_⟩
+    have := ((C13_topological_listing db hns _ _ _ l hl).2 e.prod).mp (List.mem_map.mpr ⟨e, he, rfl⟩)
+    exact ⟨this.1, this.2, h3, h4⟩
+  · rintro ⟨hq, ⟨d, hd, h1, h2⟩, v, hv, hne, h3, h4⟩
+    refine ⟨hq, d, hd, h1, h2, ?_⟩
+    rcases getDependentProducts_total db hns ⟨Y, some w, true⟩ true false with ⟨l, hl⟩ | ⟨hcc, _⟩
+    · refine ⟨l, hl, ?_⟩
+      have := ((C13_topological_listing db hns _ _ _ l hl).2 v).mpr ⟨hv, hne⟩
+      obtain ⟨e, he, rfl⟩ := List.mem_map.mp this
+      exact ⟨e, he, h3, h4⟩
+    · exact absurd hcc (by simp)
+
 /-! ## decidable sufficient conditions for the hypotheses, and concrete instances -/
 
 /-- `SingleVersion` can be read off the plain listing -/
@@ -215,6 +282,45 @@ theorem C13_topological_two_versions_witness :
       eu.prod ≠ ev.prod ∧ eu.depth = ev.depth :=
   ⟨d31, rTop, _, ⟨⟨s "b", some (s "2"), true⟩, false, some 2⟩, ⟨⟨s "c", some (s "1"), true⟩, false, some 2⟩,
     by decide, rfl, by decide, by decide, by decide, by decide, by decide, rfl⟩
+
+/-! ## the pinned tree: negation witnesses for the two `TypeError`s -/
+
+section PinnedExamples
+private def s' (x : String) : Str := Str.ofString x
+private def req' (n : String) (v : Option String := none) : Dep := ⟨false, false, s' n, v.map s', false⟩
+private def opt' (n : String) (v : Option String := none) : Dep := ⟨false, true, s' n, v.map s', false⟩
+
+/-- corpus/C13/d18_placeholder_versions.json -/
+def d18 : Db :=
+  { decls := [⟨s' "e", s' "2", []⟩, ⟨s' "c", s' "1", [req' "e"]⟩, ⟨s' "b", s' "1", [req' "c", req' "e" (some "1")]⟩,
+              ⟨s' "a", s' "1", [req' "b", opt' "zz"]⟩]
+    current := [(s' "e", s' "2"), (s' "c", s' "1"), (s' "b", s' "1"), (s' "a", s' "1")] }
+
+/-- corpus/C13/d2_uses_two_versions.json -/
+def d2 : Db :=
+  { decls := [⟨s' "e", s' "1", []⟩, ⟨s' "e", s' "2", []⟩, ⟨s' "c", s' "1", [req' "e"]⟩,
+              ⟨s' "a", s' "1", [req' "e" (some "1"), opt' "c"]⟩]
+    current := [(s' "e", s' "2"), (s' "c", s' "1"), (s' "a", s' "1")] }
+end PinnedExamples
+
+/-- **Pinned tree, D18**: `C13_topological_total` was false before the repair of `Product.__lt__` — on this
+database (no unsetup lines) the layer that `topologicalSort` sorts for the root `a 1` holds the placeholders
+`(e, None)` and `(e, "1")`, and comparing them raised `TypeError`.  The repaired model lists it. -/
+theorem C13_topological_typeerror_witness :
+    NoUnsetup d18 ∧ topologicalRaisesPinned d18 d18.fuel ⟨Str.ofString "a", some (Str.ofString "1"), true⟩ = true ∧
+    ∃ out, getDependentProducts d18 d18.fuel ⟨Str.ofString "a", some (Str.ofString "1"), true⟩ true false = .ok out :=
+  ⟨by decide, by decide, _, rfl⟩
+
+/-- **Pinned tree, D2**: `C13_uses_total` was false before the repair of `Uses.users` — `a 1` reaches `e 1`
+directly and `e 2` through `c`, the query `uses e` collects two entries for the user `a 1`, and comparing
+their `Props` raised `TypeError`.  The repaired model answers with both. -/
+theorem C13_uses_typeerror_witness :
+    ∃ sb, usesInfo d2 d2.fuel = .ok sb ∧ usersRaisesPinned sb (Str.ofString "e") none = true ∧
+      (users sb (Str.ofString "e") none).map (fun u => (u.name, u.ver, u.need)) =
+        [(Str.ofString "a", Str.ofString "1", some (Str.ofString "1")),
+         (Str.ofString "a", Str.ofString "1", some (Str.ofString "2")),
+         (Str.ofString "c", Str.ofString "1", some (Str.ofString "2"))] :=
+  ⟨_, rfl, by decide, by decide⟩
 
 /-! ## the layering loop (generic part, kept from the first pass) -/
 
